@@ -3571,7 +3571,7 @@ addop("das", [bs8(0x2f)])
 addop("dec", [bs('1111111'), w8] + rmmod(d1, rm_arg_w8))
 addop("dec", [bs('01001'), reg, bs_modeno64])
 addop("div", [bs('1111011'), w8] + rmmod(d6, rm_arg_w8))
-addop("enter", [bs8(0xc8), u16, u08])
+addop("enter", [bs8(0xc8), stk, u16, u08])
 
 # float #####
 addop("fwait", [bs8(0x9b)])
